@@ -26,7 +26,8 @@ static Config own_shape(int a) {
     return g;
 }
 static std::vector<uint8_t> tdata(const Config &g, int b) {
-    std::vector<uint8_t> d((size_t)g.k * ref::word_bytes(g) * (1 + b % 4) + (b % 3));
+    size_t units = (b % 8 == 5) ? 700 : (size_t)(1 + b % 4);       // one draw in eight: payloads of 1.4-2.8 KiB per fragment (bulk code paths)
+    std::vector<uint8_t> d((size_t)g.k * ref::word_bytes(g) * units + (b % 3));
     uint64_t sd = 1000 + b;
     for (auto &x : d) x = (uint8_t)splitmix64(sd);
     return d;
